@@ -15,6 +15,8 @@ HERE = os.path.dirname(os.path.dirname(os.path.abspath(__file__)))
 def header(path):
     exp, what = [], ""
     for ln in open(path):
+        if ln.startswith("# expect-broken:"):
+            exp = [c + "!" for c in ln.split(":", 1)[1].split()]      # the check must refuse to pass (exit 2), without claiming a violation
         if ln.startswith("# expect:"):
             exp = ln.split(":", 1)[1].split()
         if ln.startswith("# what:"):
@@ -32,10 +34,14 @@ def run_one(path, kind, build):
         msgs = []
         ok = True
         for c in exp:
+            broken_ok = c.endswith("!")
+            c = c.rstrip("!")
             env = dict(os.environ, VERIF_REPO=d, VERIF_EVIDENCE=os.path.join(d, "ev"))
             p = subprocess.run([os.path.join(HERE, "bin", "vcheck"), c, "--tier", "quick"], capture_output=True, text=True, env=env)
             viol = "VIOLATION property=%s" % c in p.stdout
-            if kind == "mutant":
+            if kind == "mutant" and broken_ok:
+                good = p.returncode == 2 and not viol
+            elif kind == "mutant":
                 good = p.returncode == 1 and viol
             else:
                 good = p.returncode == 0 and not viol
